@@ -954,6 +954,48 @@ func checkParquet(c *core.Ctx) {
 	})
 	c.Decide(namesOK, "PQ", key+"/field names", fn.Decl.Pos(), 1, "projected names are the schema's field names, position by position", "the projected column list must be the names of the schema fields, in the same positions")
 
+	// a node that is absent in a row still occupies its columns: skipping it advances the row by the node's width
+	nSkip, badSkip := 0, ""
+	for _, fr := range p.AllFuncs("datasources/parquet") {
+		width := ""
+		if fr.Decl.Type.Params != nil {
+			for _, f := range fr.Decl.Type.Params.List {
+				for _, nm := range f.Names {
+					if nm.Name == "rowLength" {
+						width = nm.Name
+					}
+				}
+			}
+		}
+		ast.Inspect(fr.Decl.Body, func(n ast.Node) bool {
+			if as, ok := n.(*ast.AssignStmt); ok && as.Tok == token.DEFINE && len(as.Lhs) == 1 && len(as.Rhs) == 1 {
+				if be, ok := as.Rhs[0].(*ast.BinaryExpr); ok && be.Op == token.SUB && core.ExprStr(be.X) == "nextColumnIndex" && core.ExprStr(be.Y) == "columnIndex" {
+					width = core.ExprStr(as.Lhs[0])
+				}
+			}
+			return true
+		})
+		if width == "" {
+			continue
+		}
+		ast.Inspect(fr.Decl.Body, func(n ast.Node) bool {
+			rs, ok := n.(*ast.ReturnStmt)
+			if !ok || len(rs.Results) == 0 {
+				return true
+			}
+			se, ok := rs.Results[0].(*ast.SliceExpr)
+			if !ok || core.ExprStr(se.X) != "row" {
+				return true
+			}
+			nSkip++
+			if se.Low == nil || core.ExprStr(se.Low) != width || se.High != nil {
+				badSkip = fmt.Sprintf("%s: %s returns %s", p.Pos(rs.Pos()), p.FName(fr), core.ExprStr(se))
+			}
+			return true
+		})
+	}
+	c.Decide(nSkip >= 2 && badSkip == "", "PQ", "datasources/parquet/skip absent node", 0, nSkip, "an absent optional/repeated node advances the row by the node's column count",
+		fmt.Sprintf("a node that is NULL/empty in a row must be skipped by its whole width (row[rowLength:], rowLength = nextColumnIndex − columnIndex), or the following columns are read from the wrong position: %s (sites=%d)", badSkip, nSkip))
 	// group reconstruction: every field contributes a function (no field skipped)
 	for _, name := range []string{"reconstructFuncOfGroup"} {
 		g := p.Func("datasources/parquet", name)
@@ -1106,6 +1148,64 @@ func checkCSVRows(c *core.Ctx) {
 			c.Decide(bad == "" && nRead >= 1, "CSVROW", key+"/reused record", fn.Decl.Pos(), nRead, "the reused record is only indexed, measured, ranged over or copied", bad)
 		}
 		sides = append(sides, sd)
+	}
+	// the cell loop reads the file column of each used field and writes the output slot of the same step
+	if loop := csvCellLoop(sides[1].fn); loop != nil {
+		info := sides[1].fn.Info()
+		bad := ""
+		keyObj, valObj := types.Object(nil), types.Object(nil)
+		if id, ok := loop.Key.(*ast.Ident); ok {
+			keyObj = info.ObjectOf(id)
+		}
+		if id, ok := loop.Value.(*ast.Ident); ok && loop.Value != nil {
+			valObj = info.ObjectOf(id)
+		}
+		if keyObj == nil || valObj == nil {
+			bad = "the cell loop must range over the file column indices to read with both position and column index (`for i, columnIndex := range indicesToRead`)"
+		} else {
+			reads := 0
+			ast.Inspect(loop.Body, func(n ast.Node) bool {
+				ix, ok := n.(*ast.IndexExpr)
+				if !ok {
+					return true
+				}
+				xt := info.TypeOf(ix.X)
+				if xt == nil || xt.String() != "[]string" {
+					return true
+				}
+				reads++
+				if id, ok := ix.Index.(*ast.Ident); !ok || info.ObjectOf(id) != valObj {
+					bad = fmt.Sprintf("%s: the cell text is read as %s; it must be the file column of the field being filled (%s[%s])", p.Pos(ix.Pos()), core.ExprStr(ix), core.ExprStr(ix.X), valObj.Name())
+				}
+				return true
+			})
+			if reads == 0 && bad == "" {
+				bad = "the cell loop does not read the decoded record"
+			}
+			// the ranged slice holds positions of fileFieldNames that are used
+			src := core.ExprStr(loop.X)
+			built := false
+			ast.Inspect(sides[1].fn.Decl.Body, func(n ast.Node) bool {
+				rs, ok := n.(*ast.RangeStmt)
+				if !ok || !strings.HasSuffix(core.ExprStr(rs.X), ".fileFieldNames") || rs.Key == nil {
+					return true
+				}
+				k := core.ExprStr(rs.Key)
+				ast.Inspect(rs.Body, func(m ast.Node) bool {
+					if as, ok := m.(*ast.AssignStmt); ok && len(as.Lhs) == 1 && core.ExprStr(as.Lhs[0]) == src && core.ExprStr(as.Rhs[0]) == "append("+src+", "+k+")" {
+						built = true
+					}
+					return true
+				})
+				return true
+			})
+			if !built && bad == "" {
+				bad = fmt.Sprintf("%s must collect the positions of the used names within the file's field names", src)
+			}
+		}
+		c.Decide(bad == "", "CSVROW", sides[1].key+"/cell columns", loop.Pos(), 2, "cell text from the used field's file column, collected from the file's field names", bad)
+	} else {
+		c.Unknown("CSVROW", sides[1].key+"/cell columns", 0, "cell loop not found")
 	}
 	a, b := sides[0], sides[1]
 	c.Decide(a.comma != "" && a.comma == b.comma && a.header != "" && a.header == b.header, "CSVROW", "datasources/csv/inference↔execution", a.fn.Decl.Pos(), 2,
